@@ -1,7 +1,7 @@
 (* Extraction of the executable Raft models (C15) to OCaml: the quorum functions of
    Raft/Quorum.v and the trace checker of Raft/RaftCheck.v.  ExtrOcamlBasic only; nat stays
    the extracted unary inductive.  No Extract Constant. *)
-Require Import Raft.Quorum Raft.RaftModel Raft.RaftSys Raft.RaftCheck Raft.RaftCC Raft.RaftCCCheck.
+Require Import Raft.Quorum Raft.RaftModel Raft.RaftSys Raft.RaftCheck Raft.RaftCC Raft.RaftCCCheck Raft.RaftPV Raft.RaftPVCheck.
 Require Extraction.
 Require Import ExtrOcamlBasic.
 Extraction Language OCaml.
@@ -9,4 +9,5 @@ Extraction "raftmodel.ml"
   majority_committed_index majority_vote_result joint_committed_index joint_vote_result
   x_init init_node proj_of check_step safety_okb election_okb matching_okb sms_okb lc_okb step_okb
   model_step run
-  cx_init node_cfg cfg_of joint_satb check_step_cc.
+  cx_init node_cfg cfg_of joint_satb check_step_cc
+  px_init check_step_pv.
